@@ -190,6 +190,57 @@ def opVariantPaths (j : Json) : R Json := do
   let v ← decVariant (← field j "variant")
   return Json.mkObj [("source", encPath v.sourcePath), ("all", Json.arr (v.allPaths.map encPath).toArray)]
 
+partial def decNode (j : Json) : R Clean.Node := do
+  match j with
+  | .str "l" => pure .symlink
+  | .num _ => return .file (← j.getNat?)
+  | .arr cs =>
+    let kids ← cs.toList.mapM fun c => do
+      let a ← c.getArr?
+      match a.toList with
+      | [n, k] => pure (← n.getStr?, ← decNode k)
+      | _ => throw "bad child"
+    return .dir kids
+  | _ => throw "bad node"
+
+def decRatio (j : Json) : R (Option (Nat × Nat)) :=
+  match j with
+  | .null => pure none
+  | _ => do
+    let a ← j.getArr?
+    match a.toList with
+    | [n, d] => return some (← n.getNat?, ← d.getNat?)
+    | _ => throw "bad ratio"
+
+open Clean in
+/-- {"tree": node, "keep":[path], "size_ratio":[n,d]|null, "count_ratio":...} -/
+def opClean (j : Json) : R Json := do
+  let tree ← decNode (← field j "tree")
+  let keep ← (← fArr j "keep").mapM decPath
+  let s := scan keep tree
+  let sr ← decRatio ((fOpt j "size_ratio").getD .null)
+  let cr ← decRatio ((fOpt j "count_ratio").getD .null)
+  let allowed := cleanAllowed s sr cr
+  let flat := flattenNode [] tree
+  let after := if allowed = .yes then execQueues flat s else some flat
+  let encK := fun (k : Clean.Kind) => match k with | .file => "f" | .symlink => "l" | .dir => "d"
+  let encFlat := fun (l : List (Path × Clean.Kind)) => Json.arr (l.map fun e => Json.arr #[encPath e.1, Json.str (encK e.2)]).toArray
+  return Json.mkObj [("files_q", Json.arr (s.filesQ.map encPath).toArray), ("folders_q", Json.arr (s.foldersQ.map encPath).toArray),
+    ("bytes_total", Json.num s.bytesTotal), ("bytes_cleaned", Json.num s.bytesCleaned), ("n_files", Json.num s.nFiles),
+    ("allowed", Json.str (match allowed with | .yes => "yes" | .no => "no" | .zeroDivision => "zero-division")),
+    ("after", match after with | some l => encFlat l | none => Json.str "rmdir-nonempty"),
+    ("spec_after", encFlat (flat.filter (specSurvives keep flat)))]
+
+/-- {"names":[str]} -> quote + lex of a one-line rm script per name -/
+def opQuote (j : Json) : R Json := do
+  let names ← (← fArr j "names").mapM (·.getStr?)
+  return Json.arr (names.map fun n =>
+    let q := Script.quote n.toList
+    Json.mkObj [("quoted", encS q),
+      ("lexed", match Script.lex ("rm -f ".toList ++ q ++ [Char.ofNat 10]) with
+        | some cmds => Json.arr (cmds.map fun c => Json.arr (c.map encS).toArray).toArray
+        | none => Json.null)]).toArray
+
 def dispatch (j : Json) : R Json := do
   let op ← fStr j "op"
   match op with
@@ -201,6 +252,8 @@ def dispatch (j : Json) : R Json := do
   | "lexsafe" => opLexSafe j
   | "config" => opConfig j
   | "netrc" => opNetrc j
+  | "clean" => opClean j
+  | "quote" => opQuote j
   | "validate" => opValidate j
   | "metadata_files" => opMetadataFiles j
   | "allowed" => opAllowed j
